@@ -23,8 +23,9 @@ operations (each answers with a state dump, prefixed as noted):
   propose i        -> <valid 0/1> <quoted undoable value of the bounded variable or -> C <six changes> | dump
   accept | revert | set i b | setall <bits> | init asis|random|unchanged
   randomize d1 d2 … -> found|attempt-limit|out-of-draws dump
-  enc              -> the decision variables of the Solution built from the current state (`solutionVariables`,
-                      Crem/Model/Solution.lean): <var> <value> <k> <unit>=<value> … | …   (C11, output side)
+  enc <unit ids>   -> the decision variables of the Solution built from the current state (`solutionVariables`,
+                      Crem/Model/Solution.lean): <var> <value> <k> <unit>=<value> … D <cell per planning unit of the detail file> | …
+                      (C11, output side)
 A line whose evaluation passes within 1e-9 of a rounding boundary answers BOUNDARY (the check
 discards the rest of that walk: it cannot be decided at float precision).
 -/
@@ -129,10 +130,11 @@ def shortName : VarId → String
   | .sed => "sed" | .pn => "pn" | .dn => "dn" | .tn => "tn" | .ic => "ic" | .oc => "oc"
 
 /-- the `enc` line: `Solution.DecisionVariables` of the current state; the units in the (arbitrary) order of the data -/
-def encStr (D : Data) (s : State) : String :=
+def encStr (D : Data) (s : State) (pus : List PU) : String :=
   " | ".intercalate ((solutionVariables (D.sed0.map (·.1)) s).map fun e =>
     let units := e.perUnit.map fun (p, x) => s!" {p}={gridStr (precOf e.id) x}"
-    s!"{shortName e.id} {gridStr (precOf e.id) e.value} {e.perUnit.length}{String.join units}")
+    let cells := (detailCells e pus).map fun x => s!" {gridStr (precOf e.id) x}"
+    s!"{shortName e.id} {gridStr (precOf e.id) e.value} {e.perUnit.length}{String.join units} D{String.join cells}")
 
 def parseBits (w : String) : Option (List Bool) :=
   if w = "-" then some [] else
@@ -182,7 +184,11 @@ def step (st : St) (line : String) : St × String :=
         let s := propose st.D st.s i
         ({ st with s := s }, s!"{boolStr (changeIsValid st.D s)} {quoted st.D s} C {changesStr s} | {dump s}")
       | none => (st, "bad-op")
-    | ["enc"] => (st, encStr st.D st.s)
+    | "enc" :: ids =>
+      -- `ids`: the planning units in the order the solution lists them (the model's `PlanningUnits()`)
+      match ids.mapM String.toInt? with
+      | some pus => (st, encStr st.D st.s pus)
+      | none => (st, "bad-op")
     | ["accept"] => let s := accept st.s; ({ st with s := s }, dump s)
     | ["revert"] => let s := revert st.s; ({ st with s := s }, dump s)
     | ["set", i, b] =>
